@@ -60,7 +60,10 @@ def sym_child(v, key, tags, value_alphabet=None):
         # the text reaches C code (uuid/int/float/strptime/csv) that realises it: finite alphabets of the
         # characters the readers themselves branch on, plus a non-ASCII digit and a non-ASCII letter
         if tag.lower() == "value":
-            text = v.str(key + ".str", 1 if v.tier == "quick" else 2, value_alphabet or '[],"\n a1')
+            if v.tier == "quick":
+                text = v.str(key + ".str", 1, value_alphabet or '[],"\n a1')
+            else:
+                text = v.str(key + ".str", 2, value_alphabet or '[],"\na')
         else:
             text = v.str(key + ".str", 1, TEXT_ALPHABET)
     else:
